@@ -32,6 +32,54 @@ type postFn struct {
 	name  string
 	label string
 	olds  []string
+	calls []callRef // result_of(f[, i]) / called(f) references, bound to gocvcall_<n>
+}
+
+// callRef names a static callee whose call in the executed function the clause speaks about.
+type callRef struct {
+	callee string // full name as go/ssa prints it
+	idx    int    // result index; -1 for called(f)
+}
+
+// extractCallRefs replaces result_of(f[, i]) and called(f) by gocvcall_<n> and returns the references (callee still as source text).
+func extractCallRefs(s string) (string, []string, []int) {
+	var exprs []string
+	var idxs []int
+	for _, w := range []string{"result_of(", "called("} {
+		for {
+			i := findWord(s, w)
+			if i < 0 {
+				break
+			}
+			depth := 0
+			j := i + len(w) - 1
+			for ; j < len(s); j++ {
+				if s[j] == '(' {
+					depth++
+				} else if s[j] == ')' {
+					depth--
+					if depth == 0 {
+						break
+					}
+				}
+			}
+			if j >= len(s) {
+				break
+			}
+			arg := s[i+len(w) : j]
+			idx := 0
+			if w == "called(" {
+				idx = -1
+			} else if a, b, ok := splitTop(arg, ","); ok {
+				arg = strings.TrimSpace(a)
+				fmt.Sscanf(strings.TrimSpace(b), "%d", &idx)
+			}
+			exprs = append(exprs, strings.TrimSpace(arg))
+			idxs = append(idxs, idx)
+			s = s[:i] + fmt.Sprintf("gocvcall_%d", len(exprs)-1) + s[j+1:]
+		}
+	}
+	return s, exprs, idxs
 }
 
 type FuncContract struct {
@@ -44,10 +92,15 @@ type FuncContract struct {
 	Effects  bool
 	NoPanic  bool
 	Trusted  bool
+	Frame    bool
 	Inline   []string
 	Havoc    []string
 	Assigns  []string
 	Rules    []string // effect rules that apply to this function
+	EffectCl []*EffectClause
+	Sel      *MethodSelector // non-nil: template expanded over a method set
+	RecvName string          // receiver name for functions expanded from a template
+	sig      *types.Signature
 	posts    []postFn
 	invs     map[int][]string
 	hasPre   bool
@@ -111,8 +164,26 @@ func parseContractText(text, path, pkgPath string) ([]*FuncContract, error) {
 			cur = &FuncContract{Func: rest, PkgPath: pkgPath, File: path, Arith: "none", invs: map[int][]string{}, regions: map[string]string{}, Line: n + 1, NoPanic: true}
 			out = append(out, cur)
 			last = nil
+		case word == "methods":
+			// methods <recvName> <*T|T> [of <pkg.Interface>] [matching <regexp>] [in A B C] [except A B C]
+			sel, err := parseSelector(rest)
+			if err != nil {
+				return nil, fmt.Errorf("%s:%d: %v", path, n+1, err)
+			}
+			cur = &FuncContract{Func: "methods " + rest, PkgPath: pkgPath, File: path, Arith: "none", invs: map[int][]string{}, regions: map[string]string{}, Line: n + 1, Sel: sel, RecvName: sel.RecvName}
+			out = append(out, cur)
+			last = nil
 		case cur == nil:
 			return nil, fmt.Errorf("%s:%d: clause before any `func`", path, n+1)
+		case strings.HasPrefix(word, "effect"):
+			label := strings.TrimSuffix(strings.TrimPrefix(strings.TrimPrefix(word, "effect"), "["), "]")
+			ec := &EffectClause{Label: label, Line: n + 1}
+			cur.EffectCl = append(cur.EffectCl, ec)
+			cur.Clauses = append(cur.Clauses, Clause{Kind: "effect", Label: label, Expr: rest, Line: n + 1})
+			last = &cur.Clauses[len(cur.Clauses)-1]
+			if id, _, ok := strings.Cut(label, ":"); ok && !cur.hasProp(id) {
+				cur.Props = append(cur.Props, id)
+			}
 		case word == "property":
 			cur.Props = append(cur.Props, strings.Fields(rest)...)
 			last = nil
@@ -134,6 +205,9 @@ func parseContractText(text, path, pkgPath string) ([]*FuncContract, error) {
 			last = nil
 		case word == "trusted":
 			cur.Trusted = true
+			last = nil
+		case word == "frame":
+			cur.Frame = true // verify that the objects behind pointer parameters are unchanged at return (except `assigns`)
 			last = nil
 		case word == "inline":
 			cur.Inline = append(cur.Inline, strings.Fields(rest)...)
@@ -178,6 +252,21 @@ func parseContractText(text, path, pkgPath string) ([]*FuncContract, error) {
 		default:
 			return nil, fmt.Errorf("%s:%d: unknown contract clause %q", path, n+1, word)
 		}
+	}
+	for _, fc := range out {
+		k := 0
+		var rest []Clause
+		for _, c := range fc.Clauses {
+			if c.Kind != "effect" {
+				rest = append(rest, c)
+				continue
+			}
+			if err := parseEffect(fc.EffectCl[k], c.Expr); err != nil {
+				return nil, fmt.Errorf("%s:%d: %v", path, c.Line, err)
+			}
+			k++
+		}
+		fc.Clauses = rest
 	}
 	return out, nil
 }
@@ -618,7 +707,7 @@ func (lc *lowerCtx) usedNames(ex ast.Expr) []string {
 		if bound[n] {
 			continue
 		}
-		if _, ok := lc.vars[n]; ok || strings.HasPrefix(n, "gocvold_") {
+		if _, ok := lc.vars[n]; ok || strings.HasPrefix(n, "gocvold_") || strings.HasPrefix(n, "gocvcall_") {
 			names = append(names, n)
 		}
 	}
@@ -652,27 +741,49 @@ func generateOverlay(pkg *packages.Package, contracts []*FuncContract, regions [
 	var body strings.Builder
 	for _, fc := range contracts {
 		fd, lit, sig := findFunc(pkg, fc.Func)
-		if fd == nil {
+		if fd == nil && fc.sig == nil {
 			return "", fmt.Errorf("%s:%d: contract for unknown function %s", fc.File, fc.Line, fc.Func)
 		}
-		lc := &lowerCtx{g: g, pkg: pkg, fc: fc, sig: sig, vars: map[string]types.Type{}, results: map[string]bool{}, isParam: map[string]bool{}}
-		// locals first (of the whole declaration, so that closures see captured variables), then parameters override
-		for n, t := range varTypes(pkg, fd) {
-			lc.vars[n] = t
+		if fd == nil {
+			sig = fc.sig // method of a template whose declaration lives elsewhere (promoted through an embedded field)
 		}
-		var scopeNode ast.Node = fd.Body
-		if lit != nil {
-			scopeNode = lit.Body
-			for n, t := range varTypes(pkg, lit) {
+		lc := &lowerCtx{g: g, pkg: pkg, fc: fc, sig: sig, vars: map[string]types.Type{}, results: map[string]bool{}, isParam: map[string]bool{}, rkeys: map[string]bool{}}
+		// locals first (of the whole declaration, so that closures see captured variables), then parameters override
+		if fd != nil {
+			for n, t := range varTypes(pkg, fd) {
 				lc.vars[n] = t
 			}
+			var scopeNode ast.Node = fd.Body
+			if lit != nil {
+				scopeNode = lit.Body
+				for n, t := range varTypes(pkg, lit) {
+					lc.vars[n] = t
+				}
+			}
+			lc.rkeys = rangeKeys(scopeNode)
 		}
-		lc.rkeys = rangeKeys(scopeNode)
+		// iter__ names the number of completed iterations of the loop an invariant belongs to (range loops without a key variable)
+		lc.rkeys["iter__"] = true
+		lc.vars["iter__"] = types.Typ[types.Int]
 		if sig.Recv() != nil && sig.Recv().Name() != "" {
 			lc.vars[sig.Recv().Name()] = sig.Recv().Type()
 			lc.isParam[sig.Recv().Name()] = true
 		}
-		if fd.Recv != nil && lit != nil {
+		if fc.RecvName != "" && sig.Recv() != nil {
+			// template: the receiver is called by the template's name in every expanded method
+			rt := sig.Recv().Type()
+			if tn := strings.TrimPrefix(fc.Func[1:strings.Index(fc.Func, ")")], "*"); tn != "" {
+				if obj := pkg.Types.Scope().Lookup(tn); obj != nil {
+					rt = obj.Type()
+					if strings.HasPrefix(fc.Func, "(*") {
+						rt = types.NewPointer(rt)
+					}
+				}
+			}
+			lc.vars[fc.RecvName] = rt
+			lc.isParam[fc.RecvName] = true
+		}
+		if fd != nil && fd.Recv != nil && lit != nil {
 			// the receiver of the enclosing method is a captured variable of the closure
 			osig := pkg.TypesInfo.Defs[fd.Name].(*types.Func).Type().(*types.Signature)
 			if osig.Recv().Name() != "" {
@@ -714,8 +825,11 @@ func generateOverlay(pkg *packages.Package, contracts []*FuncContract, regions [
 		}
 		for _, c := range clauses {
 			expr, olds := c.Expr, []string(nil)
+			var callExprs []string
+			var callIdx []int
 			if c.Kind == "ensures" {
 				expr, olds = extractOlds(expr)
+				expr, callExprs, callIdx = extractCallRefs(expr)
 			}
 			low, err := lowerExpr(expr)
 			if err != nil {
@@ -767,6 +881,31 @@ func generateOverlay(pkg *packages.Package, contracts []*FuncContract, regions [
 					pf.olds = append(pf.olds, ofn)
 					oldTypes[fmt.Sprintf("gocvold_%d", i)] = ot
 				}
+				for i, ce := range callExprs {
+					cex, err := parser.ParseExpr(ce)
+					if err != nil {
+						return "", fmt.Errorf("%s:%d: result_of(%s): %v", fc.File, c.Line, ce, err)
+					}
+					full, rt, err := lc.calleeInfo(cex, fd, lit, callIdx[i])
+					if err != nil {
+						return "", fmt.Errorf("%s:%d: result_of(%s): %v", fc.File, c.Line, ce, err)
+					}
+					pf.calls = append(pf.calls, callRef{callee: full, idx: callIdx[i]})
+					oldTypes[fmt.Sprintf("gocvcall_%d", i)] = rt
+				}
+				// gocvcall_ names are parameters of the lowered function as well
+				for i := range callExprs {
+					n := fmt.Sprintf("gocvcall_%d", i)
+					found := false
+					for _, x := range names {
+						if x == n {
+							found = true
+						}
+					}
+					if !found {
+						names = append(names, n)
+					}
+				}
 				ps, err := lc.paramList(names, "ensures", oldTypes)
 				if err != nil {
 					return "", fmt.Errorf("%s:%d: %v", fc.File, c.Line, err)
@@ -803,6 +942,53 @@ func generateOverlay(pkg *packages.Package, contracts []*FuncContract, regions [
 			}
 			fmt.Fprintf(&body, "func verif_pre_%s(%s) bool {\n\treturn (%s)\n}\n\n", base, ps, strings.Join(reqs, ") && ("))
 			fc.hasPre = true
+		}
+		if len(fc.EffectCl) > 0 {
+			// expressions of effect patterns are type-checked in the scope of the function (or, for template
+			// methods without a local declaration, in a synthetic scope holding only the receiver)
+			checkPos := func(ex ast.Expr) (types.Type, *types.Info, error) {
+				info := &types.Info{Types: map[ast.Expr]types.TypeAndValue{}, Uses: map[*ast.Ident]types.Object{}, Selections: map[*ast.SelectorExpr]*types.Selection{}}
+				if fd != nil && fc.RecvName == "" {
+					pos := fd.Body.Rbrace
+					if lit != nil {
+						pos = lit.Body.Rbrace
+					}
+					if err := types.CheckExpr(pkg.Fset, pkg.Types, pos, ex, info); err != nil {
+						return nil, nil, err
+					}
+					return info.Types[ex].Type, info, nil
+				}
+				// synthetic package scope with the receiver variable
+				scope := types.NewScope(pkg.Types.Scope(), 0, 0, "effect")
+				_ = scope
+				tp := types.NewPackage(pkg.Types.Path(), pkg.Types.Name())
+				for _, n := range pkg.Types.Scope().Names() {
+					tp.Scope().Insert(pkg.Types.Scope().Lookup(n))
+				}
+				for _, f := range pkg.Syntax {
+					for _, im := range f.Imports {
+						if pn, ok := pkg.TypesInfo.Implicits[im].(*types.PkgName); ok && tp.Scope().Lookup(pn.Name()) == nil {
+							tp.Scope().Insert(types.NewPkgName(0, tp, pn.Name(), pn.Imported()))
+						} else if im.Name != nil {
+							if pn, ok := pkg.TypesInfo.Defs[im.Name].(*types.PkgName); ok && tp.Scope().Lookup(pn.Name()) == nil {
+								tp.Scope().Insert(types.NewPkgName(0, tp, pn.Name(), pn.Imported()))
+							}
+						}
+					}
+				}
+				if rn := fc.RecvName; rn != "" {
+					tp.Scope().Insert(types.NewVar(0, tp, rn, lc.vars[rn]))
+				} else if sig.Recv() != nil {
+					tp.Scope().Insert(types.NewVar(0, tp, sig.Recv().Name(), sig.Recv().Type()))
+				}
+				if err := types.CheckExpr(pkg.Fset, tp, 0, ex, info); err != nil {
+					return nil, nil, err
+				}
+				return info.Types[ex].Type, info, nil
+			}
+			if err := lc.lowerEffects(fc, &body, checkPos); err != nil {
+				return "", fmt.Errorf("%s:%d: %s: %v", fc.File, fc.Line, fc.Func, err)
+			}
 		}
 	}
 	var sb strings.Builder
